@@ -581,7 +581,14 @@ def api_unit(u, res):
     seen = []
 
     def leastsq_stub(func, x0, args=(), full_output=0, **kw):
-        seen.append(args[0])
+        cal = [a for a in args if callable(a)]
+        if cal:
+            seen.append(cal[0])
+        else:
+            # the equation of state is not handed over as an argument: recover it from the residual function, whose dependence on the
+            # parameters is eos(V; p) whatever the data are (the data cancel in a difference)
+            p0 = (-10.0, 0.5, 4.2, 66.0)
+            seen.append(lambda v, *p, _f=func, _a=args: float(np.interp(v, V, np.asarray(_f(list(p), *_a)) - np.asarray(_f(list(p0), *_a)))) + float(eosmod.get_eos(name)(v, *p0)))
         return (np.array(x0, dtype=float), None, {}, "", 1)
     old = so.leastsq
     so.leastsq = leastsq_stub
@@ -597,15 +604,23 @@ def api_unit(u, res):
         raise HarnessError("PhonopyQHA made %d fits; expected the static fit and the QHA fits" % len(seen))
     want = _eos_term(eosmod.get_eos(name))
     for k, f in enumerate(seen):
-        got = _eos_term(f)
-        v, m = solve(res, "fit %d of PhonopyQHA(eos=%s) uses the named equation of state (term equality for all v, E0, B0, B', V0)" % (k, name), [got != want], timeout_ms=20000)
+        try:
+            got = _eos_term(f)
+        except Exception:
+            got = None                                  # recovered numerically (see the stub): only the concrete comparison applies
+        v, m = ("unknown", None) if got is None else solve(res, "fit %d of PhonopyQHA(eos=%s) uses the named equation of state (term equality for all v, E0, B0, B', V0)" % (k, name), [got != want], timeout_ms=20000)
         if v != "unsat":
-            pts = [(64.0, -10.0, 0.5, 4.2, 66.0), (70.0, -9.0, 0.7, 3.5, 65.0), (61.0, -11.0, 0.4, 5.0, 68.0)]
+            pts = [(64.0, -10.0, 0.5, 4.2, 66.0), (70.0, -9.0, 0.7, 3.5, 65.0), (62.0, -11.0, 0.4, 5.0, 68.0)]
             d = max(abs(float(f(*p)) - float(eosmod.get_eos(name)(*p))) for p in pts)
             conf = d > 1e-9
             what = "fit %d made by PhonopyQHA(eos='%s') %s uses another equation of state than the one named (values differ by %.3g at test points)" % (k, name, "(the static E(V) fit behind bulk_modulus)" if k == 0 else "", d)
+            if got is None:
+                res.queries.append({"name": "fit %d of PhonopyQHA(eos=%s): parameter dependence of the residuals == named equation of state at test points [ground fact]" % (k, name),
+                                    "verdict": "sat" if conf else "unsat", "seconds": 0.0, "nvars": 0, "nontrivial": False, "hash": "ground"})
+                if not conf:
+                    continue
             (res.violations if conf else res.unconfirmed).append({"key": "%s:api:%s:fit%d" % (PID, name, min(k, 1)), "what": what, "replay": {"eos": name, "fit": k}})
-            if conf:
+            if conf and got is not None:
                 res.queries[-1]["verdict"] = "sat"
             break
     others = [n for n in ("vinet", "birch_murnaghan", "murnaghan") if n != name]
